@@ -37,12 +37,14 @@ struct Item { d1::task* t; int origin; int affinity; std::intptr_t isolation; };
 struct Worker { std::deque<Item> dq; int busy = 0; };
 struct Frame { int worker; std::intptr_t isolation; };
 struct ExecData : d1::execution_data { int worker; };
+static bool nested_on = false;
 static int P = 2, cur = 0; static std::vector<Worker> W; static std::deque<Item> stream; static std::vector<Frame> frames;
 static std::vector<d1::task_group_context*> ctx_stack; static std::intptr_t cur_isolation = 0;
 static std::set<d1::task_group_context*> live_ctx; static std::map<d1::task_group_context*, std::exception_ptr> exc;
 static long cache_allocs = 0; static bool (*idle_hook)() = nullptr; static long allocs = 0, steals = 0, mails = 0, executed = 0, cancelled_tasks = 0; static int max_conc = 0;
 Stats stats() { Stats s; s.steals = steals; s.mails = mails; s.executed = executed; s.cancelled = cancelled_tasks; s.outstanding_allocations = allocs; s.cache_allocs = cache_allocs; return s; }
-void init(int p, int reported_concurrency) { P = p; W.assign(p, Worker()); cur = 0; stream.clear(); frames.clear(); ctx_stack.clear(); cur_isolation = 0; live_ctx.clear(); exc.clear(); allocs = steals = mails = executed = cancelled_tasks = 0; cache_allocs = 0; idle_hook = nullptr; max_conc = reported_concurrency > 0 ? reported_concurrency : p; }
+void enable_nested(bool on) { nested_on = on; }
+void init(int p, int reported_concurrency) { P = p; nested_on = vf_param_int("nested", 0) != 0; W.assign(p, Worker()); cur = 0; stream.clear(); frames.clear(); ctx_stack.clear(); cur_isolation = 0; live_ctx.clear(); exc.clear(); allocs = steals = mails = executed = cancelled_tasks = 0; cache_allocs = 0; idle_hook = nullptr; max_conc = reported_concurrency > 0 ? reported_concurrency : p; }
 int current_worker() { return cur; }
 void finish() { for (auto& w : W) if (!w.dq.empty()) vf_fail("vtbb: %zu spawned tasks were never executed (wait returned while work was pending)", w.dq.size()); if (!stream.empty()) vf_fail("vtbb: %zu enqueued tasks were never executed", stream.size()); if (allocs != 0) vf_fail("vtbb: %ld task objects were not deallocated exactly once", allocs); }
 
@@ -101,7 +103,7 @@ static bool step(bool only_others = false) {
 bool interleave() { if (vf_choose(2) == 0) return false; return step(true); }
 // A body that itself waits for nested parallel work re-enters the dispatcher on its own worker: that wait may pop the worker's
 // own deque (e.g. the not yet stolen sibling of the task whose body is running), take mail, steal, or take from the stream.
-bool nested() { if (vf_choose(2) == 0) return false; frames.push_back({cur, cur_isolation}); std::vector<Move> mv; moves_for(cur, true, cur_isolation, mv); bool r = false;
+bool nested() { if (!nested_on || vf_choose(2) == 0) return false; frames.push_back({cur, cur_isolation}); std::vector<Move> mv; moves_for(cur, true, cur_isolation, mv); bool r = false;
     if (!mv.empty()) { Move m = mv[vf_choose((int)mv.size())]; Item it;
         if (m.src == -1) { it = W[m.w].dq.back(); W[m.w].dq.pop_back(); } else if (m.src == -2) { it = stream.front(); stream.pop_front(); }
         else if (m.src == -3) { auto& q = W[m.src2].dq; size_t k = 0; while (q[k].affinity != m.w) k++; it = q[k]; q.erase(q.begin() + k); mails++; }
